@@ -609,6 +609,11 @@ def vlen(x):
 # ----------------------------------------------------------------------------- sparse matrices
 
 
+class SparseBuf:
+    def __init__(self, owner, role):
+        self.owner, self.role, self.fmt = owner, role, owner.fmt
+
+
 class COO:
     """sparse matrix = list of blocks (n, guard(k)|None, row(k), col(k), val(k));
     M[r,c] = sum over blocks and k<n with guard(k), row(k)=r, col(k)=c of val(k)"""
@@ -625,8 +630,23 @@ class COO:
     def copy(self):
         return COO(self.blocks, self.shape, self.fmt)
 
-    def tocsr(self, copy=False): return self
-    def tocsc(self, copy=False): return self
+    def _as(self, fmt):
+        m = COO(self.blocks, self.shape, fmt)
+        m.dtype_kind = self.dtype_kind
+        return m
+
+    def transposed(self, fmt):
+        m = COO([(n, g, c, r, v) for (n, g, r, c, v) in self.blocks], (self.shape[1], self.shape[0]), fmt)
+        m.dtype_kind = self.dtype_kind
+        return m
+
+    # raw compressed buffers: only their identity (owner, role, storage format) is modelled
+    data = property(lambda self: SparseBuf(self, "data"))
+    indices = property(lambda self: SparseBuf(self, "indices"))
+    indptr = property(lambda self: SparseBuf(self, "indptr"))
+
+    def tocsr(self, copy=False): return self if self.fmt == "csr" else self._as("csr")
+    def tocsc(self, copy=False): return self if self.fmt == "csc" else self._as("csc")
     def tolil(self): return self
     def asformat(self, f): return self
 
